@@ -234,7 +234,9 @@ class Circuit:
         if mode + circuit.n_modes - n_heralds > self.n_modes:
             raise ModeRangeError("Circuit to add is outside of mode range")
 
-        # Include any existing internal modes into the circuit to be added
+        # Include any existing internal modes into the circuit to be added,
+        # these are unchanged by the added circuit
+        provisional_swaps = {}
         for i in sorted(self.__internal_modes):
             # Need to account for shifts when adding new heralds
             target_mode = i - mode
@@ -243,9 +245,9 @@ class Circuit:
                     target_mode += 1
             if 0 <= target_mode < circuit.n_modes:
                 spec = circuit._add_empty_mode(spec, target_mode)
+                provisional_swaps[target_mode] = target_mode
         # Then add new modes for heralds from circuit and also add swaps to
         # enforce that the input and output herald are on the same mode
-        provisional_swaps = {}
         for m in sorted(circuit.heralds["input"]):
             self.__circuit_spec = self._add_empty_mode(
                 self.__circuit_spec, mode + m
